@@ -25,8 +25,9 @@ func ID(i int) [HashSize]byte {
 // Content returns deterministic content number c.
 //
 //	0: empty  1: 1 byte  2: 139 bytes  3: 4095  4: 4096  5: 4097  6: 100 KiB  7: 139 bytes (differs from 2)
+//	8: 2 bytes  9: 32768 (the io.Copy buffer)  10: 32769  11: 65537
 func Content(c int) []byte {
-	sizes := []int{0, 1, 139, 4095, 4096, 4097, 100 << 10, 139}
+	sizes := []int{0, 1, 139, 4095, 4096, 4097, 100 << 10, 139, 2, 32768, 32769, 65537}
 	n := sizes[c%len(sizes)]
 	b := make([]byte, n)
 	x := uint32(c*2654435761 + 12345)
@@ -40,7 +41,7 @@ func Content(c int) []byte {
 	return b
 }
 
-const NContents = 8
+const NContents = 12
 
 func Sum(b []byte) [HashSize]byte { return sha256.Sum256(b) }
 
